@@ -44,7 +44,8 @@ def property_fails_on(op, impl_line, model_line):
     if w[0] == "idle" and impl_line.startswith("dat="):
         dat, mem = impl_line[4:].split(" mem=")
         if dat != mem:
-            return (KEY_F6 if len(dat) > len(mem) else "idle-file-differs",
+            return (KEY_F6 if len(dat) > len(mem) else "created-object-not-persisted" if len(dat) < len(mem)
+                    else "idle-file-differs",
                     "daemon idle but nsqd.dat=%s while live state=%s" % (dat, mem))
     return None
 
